@@ -81,6 +81,12 @@ for _m in _overlay.REG:
         if _k in PROPS:
             PROPS[_k]["prefixes"] = list(PROPS[_k]["prefixes"]) + [x for x in _v if x not in PROPS[_k]["prefixes"]]
 
+# C20 ("no panic, profile independence") also owns the overflow obligations of the limb arithmetic: every checked-arithmetic assert of the
+# MIR of Poly1305::block and the fe64 functions is discharged by mirsym for all in-class inputs, so dev and release builds compute the same values
+if "C20" in PROPS:
+    import mirsym_extra as _mx
+    PROPS["C20"].setdefault("extra", []).append(_mx.make_extra("C20"))
+
 _PENDING = "not yet built in this round; see DESIGN.md section 4 for the plan"
 NOT_APPLICABLE = {
     "C19": "property is about the program-counter trace of the optimised machine code; no installed engine can encode machine code or LLVM IR "
